@@ -120,6 +120,16 @@ def _gen_cases(tier, seed):
                     A, so = _tensor_case(rng, shp, pat)
                     yield {"w": "partial_reshape", "shape": list(shp), "A": A.tolist(), "old_modes": old,
                            "sorted_modes": old == sorted(old), "int_form": bool(rng.integers(0, 2)), "new_shape": list(tgt), "so": so, "pattern": pat}
+    # partial reshape of tensors of order 9-11 (mode numbers beyond 7): the modes left alone keep their order
+    for shp, olds in (((2, 1, 1, 2, 1, 1, 2, 1, 3), ([0, 1, 2, 3, 4], [3, 0], [8, 0])), ((1, 2, 1, 1, 2, 1, 2, 1, 3, 1), ([0, 1, 2, 3, 4, 5], [4, 1, 0], [9, 8, 6])),
+                      ((2, 1, 1, 1, 1, 1, 1, 2, 1, 3, 2), ([0, 1, 2, 3, 4, 5, 6], [7, 0]))):
+        for old in olds:
+            cells = int(np.prod([shp[m] for m in old]))
+            for tgt in gen.take(rng, factorizations(cells, 3), 2):
+                pat = pats[int(rng.integers(0, 3))]
+                A, so = _tensor_case(rng, shp, pat)
+                yield {"w": "partial_reshape", "shape": list(shp), "A": A.tolist(), "old_modes": list(old), "sorted_modes": list(old) == sorted(old),
+                       "int_form": False, "new_shape": list(tgt), "so": so, "pattern": pat, "high_order": True}
     # squeeze: every 0/1 pattern of singleton modes
     for N in range(1, maxN + 1):
         for mask in itertools.product((0, 1), repeat=N):
